@@ -163,6 +163,17 @@ def block_facts(ev, ctx, bb, unwind=False):
                     # both listed values and otherwise lead here: no usable fact
                     continue
                 out.extend(switch_facts(ev, ctx, d, vals, is_other, listed))
+        elif t["k"] == "call" and d != bb:
+            # a successful slice/Vec index implies index < len on everything the return edge dominates
+            s = t.get("target")
+            if s is not None and (s == bb or s in dom) and all(p == d for p in preds[s]):
+                c = body.callee(d)
+                if c is not None and not c.indirect and c.trait in ("std::ops::Index", "std::ops::IndexMut") \
+                        and len(t["args"]) == 2:
+                    base = ev.operand(ctx, t["args"][0])
+                    idx = unref(ev.operand(ctx, t["args"][1]))
+                    if not (idx[0] == "agg"):
+                        out.append(("lt", idx, ("call", "len", (base,))))
         elif t["k"] == "assert":
             s = t["target"]
             if (s == bb or s in dom) and d != bb and all(p == d for p in preds[s]):
@@ -173,14 +184,16 @@ def block_facts(ev, ctx, bb, unwind=False):
                         out.append(("no_ovf", c[1], c[2], c[3]))
                 else:
                     out.extend(bool_facts(c, bool(t["expected"])))
-    ctx.memo[key] = out
+    if not getattr(ev, "_inprogress", None):
+        ctx.memo[key] = out  # (facts computed in the middle of a local's evaluation may contain cycle markers)
     return out
 
 
 class Prover:
     """Entailment over lt/le/eq/ne facts on terms. Deliberately small and sound."""
 
-    def __init__(self, facts, ev=None, ctx=None, extra_le=None, payload_facts=None):
+    def __init__(self, facts, ev=None, ctx=None, extra_le=None, payload_facts=None, option_facts=None):
+        self.option_facts = option_facts if option_facts is not None else (ev.option_facts if ev is not None else {})
         self.facts = list(facts)
         self.ev = ev
         self.ctx = ctx
@@ -188,8 +201,20 @@ class Prover:
         self.payload_facts = payload_facts or {}
         self._stack = set()
 
+    def _opt(self, x):
+        """prover for reasoning about one option x of a phi: the facts of x's defining block hold in addition"""
+        extra = self.option_facts.get(x)
+        if not extra:
+            return self
+        p = self.with_facts(extra)
+        p._stack = self._stack
+        return p
+
     def with_facts(self, more):
-        p = Prover(self.facts + list(more), self.ev, self.ctx, self.extra_le, self.payload_facts)
+        import copy
+        p = copy.copy(self)
+        p.facts = self.facts + [f for f in more if f not in self.facts]
+        p._stack = set()
         return p
 
     def _facts_for(self, a):
@@ -245,7 +270,7 @@ class Prover:
                 if self._payload_le(a[2][0], b, depth) and self.le(a[2][1], b, depth + 1):
                     return True
         if a[0] == "phi":
-            if all(self.le(x, b, depth + 1) for x in a[1]):
+            if all(self._opt(x).le(x, b, depth + 1) for x in a[1]):
                 return True
         if a[0] == "bin" and a[1] == "Sub":
             # x - y <= x (when it does not underflow, which is a separate obligation)
@@ -261,7 +286,7 @@ class Prover:
             if m == "saturating_add" and (self.le(a, b[2][0], depth + 1) or self.le(a, b[2][1], depth + 1)):
                 return True
         if b[0] == "phi":
-            if all(self.le(a, x, depth + 1) for x in b[1]):
+            if all(self._opt(x).le(a, x, depth + 1) for x in b[1]):
                 return True
         if b[0] == "bin" and b[1] == "Add":
             # a <= x + y if a <= x (no-overflow is a separate obligation)
